@@ -148,7 +148,7 @@ CLAIMED = {
         text=("THEOREM (coq/props/C07.v): output fidelity reduces to state fidelity -- if methods depend only on (class, state) up to iso [hypothesis], the class is importable, states round-trip (C05) and the class honours its own "
               "__getstate__/__setstate__/__reduce__ contract, then ObjectNode/ReduceNode reassembly gives equal class, iso state, equal outputs; trees whose names are all snapshot defaults audit clean (tree and graph audit). "
               "CORRESPONDENCE-ONLY (tests, not proof): bit-identical method outputs, params and fitted attributes, get_untrusted_types on all_estimators() x parameter draws x dense/sparse/multi-output data, fitted/unfitted, + compositions."),
-        note=("PARTIAL: sklearn/BLAS/Cython numerical behaviour cannot be modelled; method purity is a hypothesis exercised by bitwise tests on small data. Open: D12 (sparse default trust), C07-F1 (private estimator helpers), "
+        note=("PARTIAL: sklearn/BLAS/Cython numerical behaviour cannot be modelled; method purity is a hypothesis exercised by bitwise tests on small data. Open: D12 (sparse ARRAYS through the object path; the matrix classes were repaired in /repo), C07-F1 (private estimator helpers), "
               "C07-F2 (negatively strided components_). Fixed in /repo: CyHalfMultinomialLoss dispatch."),
         ref="DESIGN.md section 4 C07"),
     "C12": dict(
